@@ -10,6 +10,7 @@ import (
 	"sort"
 	"strings"
 	"sync"
+	"sync/atomic"
 	"time"
 
 	"github.com/canonical/sqlair"
@@ -1004,11 +1005,17 @@ func concurrentFirstUse(rep *Report, cl *lean.Client, r *rng.R) int {
 		res := make([]*l2Run, g)
 		start := make(chan struct{})
 		var wg sync.WaitGroup
+		// (woken by the channel one after the other, the goroutines then wait for each other
+		// on a counter: they enter Prepare within a fraction of a microsecond)
+		var arrived atomic.Int32
 		for i := 0; i < g; i++ {
 			wg.Add(1)
 			go func(i int) {
 				defer wg.Done()
 				<-start
+				arrived.Add(1)
+				for spin := 0; arrived.Load() < g && spin < 2000000; spin++ {
+				}
 				res[i] = runL2Case(c, c.Samples, c.Args)
 			}(i)
 		}
